@@ -4,6 +4,7 @@ import ChythonModel.Proofs.C15Equivariant
 import ChythonModel.Proofs.C15Read
 import ChythonModel.Proofs.C15Cx
 import ChythonModel.Proofs.C15Rxn
+import ChythonModel.Proofs.C15Dict
 import ChythonModel.Model.C15CgrTokens
 import ChythonModel.Model.C15Read
 /-!
@@ -82,6 +83,15 @@ theorem compose_symmetric (r p : Mol) (wr : r.WF = true) (wp : p.WF = true) (ls 
 theorem compose_keys (r p : Mol) (ls fs cs : List Nat) (h : CGR) (hc : composeWith ls fs cs r p = .ok h) :
     h.atoms.map (·.1) = ls ++ fs ++ cs ∧ h.adj.map (·.1) = ls ++ fs ++ cs :=
   composeWith_keys r p ls fs cs h hc
+
+/-- **compose_is_dict.** The result is a faithful dict of dicts: the keys of `_atoms`, of `_bonds` and of every
+    `_bonds[n]` are pairwise different (every unordered atom pair is appended to `bonds` at most once by the
+    `m not in ha` tests), so the `filterMap` form `adjOf` of the model is exactly what the assignments
+    `hb[n][m] = hb[m][n] = bond` build. -/
+theorem compose_is_dict (r p : Mol) (wr : r.WF = true) (wp : p.WF = true) (ls fs cs : List Nat)
+    (ad : Admissible r p ls fs cs) (h : CGR) (hc : composeWith ls fs cs r p = .ok h) :
+    (h.atoms.map (·.1)).Nodup ∧ (h.adj.map (·.1)).Nodup ∧ ∀ nl ∈ h.adj, (nl.2.map (·.1)).Nodup :=
+  composeWith_dict r p (wfp_of_WF r wr) (wfp_of_WF p wp) ls fs cs ad h hc
 
 /-! ## part 2 — dynamic ⇔ the sides differ; reaction centre -/
 
